@@ -1,6 +1,7 @@
 //! Verification core for mamba-org/resolvo: model, generators, providers, reference
 //! resolver, oracles, scheduler, runner and evidence.
 pub mod gen;
+pub mod golden;
 pub mod minimize;
 pub mod model;
 pub mod oracle;
